@@ -197,7 +197,19 @@ def handle : Handler
       if p < 1 then return (PyErr.value).toVal
       match Basis.mk? p.toNat ks.toArray per tol with
       | .error e => return e.toVal
-      | .ok b => return .list [.str "ok", Val.ofBool b.validB]
+      | .ok b => return .list [.str "ok", Val.ofBool b.validB, ofArr b.knots]
+  | "c10_ctor_eval", [pv, kv, perv, tolv, tsv] => some <| Id.run do
+      -- BSplineBasis(p, knots, periodic) followed by evaluate(t) for every t (dense rows, from the right)
+      let some p := pv.toInt? | return bad
+      let some ks := kv.toRats? | return bad
+      let some per := perv.toInt? | return bad
+      let some tol := tolv.toRat? | return bad
+      let some ts := tsv.toRats? | return bad
+      if p < 1 then return (PyErr.value).toVal
+      match Basis.mk? p.toNat ks.toArray per tol with
+      | .error e => return e.toVal
+      | .ok b => return .list [.str "ok", Val.ofBool b.validB, ofArr b.knots,
+                               .list (ts.map (fun t => ofArr (b.evaluate tol t 0 true)))]
   | "c10_wf", [ov] => some <| Id.run do
       let some o := decodeObj ov | return bad
       return Val.ofBool o.wfB
